@@ -1658,6 +1658,9 @@ pub fn gen(a: &Args) {
         if !sites.is_empty() {
             w.count("identity.sites");
         }
+        // how much the identity oracle sees: markers in the text, markers met by the run
+        w.count_n("identity.sites_in_text", sites.len() as u64);
+        w.count_n("identity.markers_in_observed_log", obs.matches("(trstr [119%N").count() as u64);
         for (k, _) in feats.iter() {
             w.count(k);
         }
